@@ -19,6 +19,7 @@ structure Cfg where
   trailerNoPanic : Bool
   closeSendNoopWhenDone : Bool
   finishOrder : Bool
+  sendTeardownNoRst : Bool
   openFailureTearsDown : Bool
   unaryBadMetaIsErrorReply : Bool
   unaryCtxFollowsConn : Bool
